@@ -204,21 +204,30 @@ inductive Outcome where
   | data | error | eos
 deriving Repr, DecidableEq
 
+/-- `_read_response` (+ `close()` on RpcError) once the server has reacted with `items` -/
+def recv (s2 : St) (items : List Item) : St × List Ev × Outcome :=
+  match readUntilData (s2.unread ++ items) with
+  | (evs, .gotData rest) => ({ s2 with unread := rest }, evs, .data)
+  | (evs, .raised) =>
+    let r := close { s2 with unread := [] }
+    (r.1, evs ++ r.2, .error)
+  | (evs, .eos) => ({ s2 with unread := [] }, evs, .eos)
+  | (evs, .gotToken _ rest) => ({ s2 with unread := rest }, evs, .eos)      -- never written by this server
+
+/-- the batch's schema differs from the one the input IPC writer was opened with -/
+def wrongSchema (s : St) (b : IBatch) : Bool :=
+  match s.wschema with
+  | some w => decide (w ≠ b.schema)
+  | none => false
+
 /-- the common part of `exchange()` and `tick()`: guard, `_write_batch`, `_read_response`, close on RpcError -/
 def sendRecv (env : Env) (p : Prog) (op : String) (s : St) (b : IBatch) : St × List Ev × Outcome :=
   if s.closed then (s, [refusedEv], .error)
-  else if (match s.wschema with | some w => decide (w ≠ b.schema) | none => false) then
+  else if wrongSchema s b then
     ({ s with closed := true }, [transportEv op], .error)
   else
-    let s1 := { s with wschema := some b.schema, writes := s.writes + 1 }
-    let (s2, items) := serveBatch env p s1 b
-    match readUntilData (s2.unread ++ items) with
-    | (evs, .gotData rest) => ({ s2 with unread := rest }, evs, .data)
-    | (evs, .raised) =>
-      let (s3, d) := close { s2 with unread := [] }
-      (s3, evs ++ d, .error)
-    | (evs, .eos) => ({ s2 with unread := [] }, evs, .eos)
-    | (evs, .gotToken _ rest) => ({ s2 with unread := rest }, evs, .eos)      -- never written by this server
+    let r := serveBatch env p { s with wschema := some b.schema, writes := s.writes + 1 } b
+    recv r.1 r.2
 
 /-- `exchange(input)`: StopIteration propagates without closing -/
 def exchange (env : Env) (p : Prog) (s : St) (b : IBatch) : St × List Ev :=
@@ -230,8 +239,8 @@ def exchange (env : Env) (p : Prog) (s : St) (b : IBatch) : St × List Ev :=
 def tick (env : Env) (p : Prog) (s : St) : St × List Ev × Outcome :=
   match sendRecv env p "tick" s tickBatch with
   | (s', evs, .eos) =>
-    let (s'', d) := close s'
-    (s'', evs ++ d ++ [.fin], .eos)
+    let r := close s'
+    (r.1, evs ++ r.2 ++ [.fin], .eos)
   | r => r
 
 /-- one `next(it)` on the generator of `__iter__` (`while True: yield self.tick()` / `except StopIteration: break`) -/
@@ -329,51 +338,65 @@ def serve (c : Cfg) (p : Prog) (pos : Nat) (b : IBatch) : List Item × List SEv 
       ((match runStep p pos with | .cont items => items | .done items => items | .fail items => items),
        [.process pos b'.schema])
 
+/-- `HttpStreamSession.exchange` reading one response body (as `Engine.Http.readExchange`, and: an EXCEPTION batch among
+the batches that trail the data batch makes `exchange()` raise instead of returning the data — only reachable when
+`exchange()` is used on a producer stream, whose turn may carry several steps) -/
+def readX : List Item → List Ev × Bool
+  | [] => ([], false)
+  | .log l :: r => let (e, ok) := readX r; (.log l :: e, ok)
+  | .data b :: r =>
+    let t := Http.trailing r
+    if t.any isError then (t, false) else (t ++ [.data b], true)
+  | .err e :: _ => ([errEv e], false)
+  | .token _ :: r => readX r
+
 /-- `exchange(input)` -/
 def send (c : Cfg) (p : Prog) (s : St) (b : IBatch) : St × List Ev :=
   match s.tok with
   | none => (s, [refusedEv])
   | some pos =>
-    let (items, l) := serve c p pos b
-    let s' := { s with slog := s.slog ++ l, reqs := s.reqs + 1 }
-    match Http.readExchange items with
-    | (evs, true) => ({ s' with tok := if p.isProducer then s'.tok else some (pos + 1) }, evs)
+    match readX (serve c p pos b).1 with
+    | (evs, true) =>
+      ({ s with slog := s.slog ++ (serve c p pos b).2, reqs := s.reqs + 1,
+                tok := if p.isProducer then s.tok else some (pos + 1) }, evs)
     | (evs, false) =>
-      (s', match evs.getLast? with
-           | some (.error ..) => evs
-           | _ => evs ++ [.fin])              -- `_read_batch_with_log_check` met the end of the body: StopIteration
+      ({ s with slog := s.slog ++ (serve c p pos b).2, reqs := s.reqs + 1 },
+       match evs.getLast? with
+       | some (.error ..) => evs
+       | _ => evs ++ [.fin])              -- `_read_batch_with_log_check` met the end of the body: StopIteration
 
 /-- the generator running inside its `while True` loop over a response body -/
 def pull (c : Cfg) (p : Prog) : Nat → St → List Item → St × List Ev × Bool
   | _, s, [] => ({ s with gen := .dead }, [.fin], false)
-  | f, s, .log l :: r => let (s', e, y) := pull c p f s r; (s', .log l :: e, y)
+  | f, s, .log l :: r => let q := pull c p f s r; (q.1, .log l :: q.2.1, q.2.2)
   | _, s, .data b :: r => ({ s with gen := .reader r }, [.data b], true)
   | _, s, .err e :: _ => ({ s with gen := .dead }, [errEv e], false)
   | 0, s, .token _ :: _ => ({ s with gen := .dead }, [], false)       -- out of fuel: not reached (fuel > script length)
   | f + 1, s, .token pos :: _ =>
     if c.chk && s.finished then ({ s with gen := .dead }, [.fin], false)
     else
-      let (items, l) := serve c p pos tickBatch
-      pull c p f { s with slog := s.slog ++ l, reqs := s.reqs + 1 } items
+      pull c p f { s with slog := s.slog ++ (serve c p pos tickBatch).2, reqs := s.reqs + 1 } (serve c p pos tickBatch).1
 
 def fuel (p : Prog) : Nat := p.steps.length + 2
+
+/-- the generator past `yield from self._pending_batches` -/
+def afterPendingEnd (c : Cfg) (p : Prog) (s : St) : St × List Ev × Bool :=
+  match s.perr with
+  | some e => ({ s with pend := [], perr := none, gen := .dead }, [e], false)
+  | none =>
+    if s.finished then ({ s with pend := [], gen := .dead }, [.fin], false)
+    else
+      match s.tok with
+      | none => ({ s with pend := [], gen := .dead }, [.fin], false)
+      | some pos =>
+        pull c p (fuel p) { s with pend := [], slog := s.slog ++ (serve c p pos tickBatch).2, reqs := s.reqs + 1 }
+          (serve c p pos tickBatch).1
 
 /-- the generator at / after `yield from self._pending_batches` with `j` batches handed out -/
 def afterPending (c : Cfg) (p : Prog) (s : St) (j : Nat) : St × List Ev × Bool :=
   match s.pend[j]? with
   | some b => ({ s with gen := .pending (j + 1) }, [.data b], true)
-  | none =>
-    let s1 := { s with pend := [] }
-    match s1.perr with
-    | some e => ({ s1 with perr := none, gen := .dead }, [e], false)
-    | none =>
-      if s1.finished then ({ s1 with gen := .dead }, [.fin], false)
-      else
-        match s1.tok with
-        | none => ({ s1 with gen := .dead }, [.fin], false)
-        | some pos =>
-          let (items, l) := serve c p pos tickBatch
-          pull c p (fuel p) { s1 with slog := s1.slog ++ l, reqs := s1.reqs + 1 } items
+  | none => afterPendingEnd c p s
 
 /-- one `next(it)` -/
 def next (c : Cfg) (p : Prog) (s : St) : St × List Ev × Bool :=
@@ -414,27 +437,32 @@ def nextN (c : Cfg) (p : Prog) : Nat → St → St × List Ev
     | (s', evs, true) => let (s'', e2) := nextN c p n s'; (s'', evs ++ e2)
     | (s', evs, false) => (s', evs)
 
-/-- body of the `/init` response after the header stream -/
+/-- the sink's logs that travel in the `/init` body (`_write_stream_header` flushes and resets the sink) -/
+def sinkLogs (m : Method) : List Log := match m.header with | some _ => [] | none => m.initLogs
+
+/-- body of the `/init` response after the header stream, and the `process` calls the init turn made -/
 def initBody (c : Cfg) (m : Method) : List Item × List SEv :=
-  let sinkLogs := match m.header with | some _ => [] | none => m.initLogs     -- `_write_stream_header` resets the sink
   if m.prog.isProducer then
-    (logItems sinkLogs ++ Http.turn c.brk 0 m.prog.steps, turnLog c.brk 0 m.prog.steps)
-  else (logItems sinkLogs ++ [.token 0], [])
+    (logItems (sinkLogs m) ++ Http.turn c.brk 0 m.prog.steps, turnLog c.brk 0 m.prog.steps)
+  else (logItems (sinkLogs m) ++ [.token 0], [])
+
+/-- events of the open: logs of the header stream, logs of the body, then the header becomes available -/
+def openEvs (m : Method) (pr : Http.InitParse) : List Ev :=
+  (match m.header with | some _ => lgEv m.initLogs | none => []) ++ pr.evs ++
+    (match m.header with | some h => [.header h] | none => [])
+
+def session (c : Cfg) (m : Method) (pr : Http.InitParse) : St :=
+  { pend := pr.pending, perr := pr.err, finished := pr.cursor.isNone, tok := pr.cursor, gen := .fresh,
+    slog := (initBody c m).2, reqs := 1 }
 
 /-- `_make_stream_caller` + `_init_http_stream_session` -/
 def openS (c : Cfg) (m : Method) : List Ev × Option St :=
   match m.init with
   | some e => ([errEv e], none)
   | none =>
-    let (body, l) := initBody c m
-    let pr := Http.parseInit body
-    let hdrEvs : List Ev := match m.header with | some _ => lgEv m.initLogs | none => []
-    match pr.err, pr.pending, m.header with
-    | some e, [], none => (pr.evs ++ [e], none)                 -- nothing delivered yet: the error is raised at open
-    | _, _, _ =>
-      (hdrEvs ++ pr.evs ++ (match m.header with | some h => [.header h] | none => []),
-       some { pend := pr.pending, perr := pr.err, finished := pr.cursor.isNone, tok := pr.cursor, gen := .fresh,
-              slog := l, reqs := 1 })
+    match (Http.parseInit (initBody c m).1).err, (Http.parseInit (initBody c m).1).pending, m.header with
+    | some e, [], none => ((Http.parseInit (initBody c m).1).evs ++ [e], none)   -- nothing delivered yet: raised at open
+    | _, _, _ => (openEvs m (Http.parseInit (initBody c m).1), some (session c m (Http.parseInit (initBody c m).1)))
 
 end HttpM
 
